@@ -467,6 +467,14 @@ def run(ctx, t0):
     r3 = C16.rule_completed(facts)
     r3.rule = "C08.R3"
     rules = [r1, r2, r3, rule_size_writers(facts), rule_final(facts), rule_marker(facts), rule_lengths(facts)]
+    if pat.body_of(facts, "decode::stream::Stream::finish") is not None:
+        from rules import C15
+        ra = C15.rule_allow_incomplete(facts)
+        ra.rule = "C08.R7"
+        ra.title = "the streaming API's final size / end-state check is skipped only by allow_incomplete"
+        for f_ in ra.findings:
+            f_.rule = "C08.R7"
+        rules.append(ra)
     expl = ("Static: byte widths of the resolved read callees per option arm, provenance of the stored size per arm, "
             "dominance/path checks of the size test, the final equality and the end-marker acceptance, and the "
             "provenance of the copy length handed to the window. Declined: that the numbers produced equal the "
